@@ -15,7 +15,7 @@ import sys
 import numpy as _np
 import z3
 
-from .values import (Sym, Arr, TArr, Obj, NpScalar, GenList, Untranslatable, Raised, ZeroDiv, obj_cls, obj_dict,
+from .values import (Sym, Arr, TArr, Obj, NpScalar, GenList, Untranslatable, Raised, ZeroDiv, obj_cls, obj_dict, SymRange, SymList, SymGen,
                      raw, is_sym, kind_of, term_of, mk, simp, binop, unop, compare, absval, ite,
                      logic_and, logic_or, logic_not, is_np_scalar, is_special_float, concretize, nan_of,
                      real_val, trunc_term)
@@ -139,6 +139,15 @@ class Ctx:
         r = self.solver.check()
         self.solver.pop()
         return r == z3.unsat
+
+    def entails_full(self, term, timeout_ms=10000):
+        """the FULL path condition (quantified conjuncts included, which the quantifier-free probe solver does not see) implies
+        term; a timeout counts as 'not known'"""
+        s = z3.Solver()
+        s.set("timeout", timeout_ms)
+        s.add(*self.pc)
+        s.add(z3.Not(term))
+        return s.check() == z3.unsat
 
     def branch(self, cond, where=None):
         """cond: z3 Bool.  Returns the Python bool taken on this run."""
@@ -672,7 +681,7 @@ class Interp:
 
     def s_For(self, s, env):
         it = self.eval(s.iter, env)
-        if isinstance(it, (TArr, SymEnum)):
+        if isinstance(it, (TArr, SymEnum, SymList, SymRange)):
             return self.cut_loop(s, env, it)
         broke = False
         for item in self.iterate(it):
@@ -707,10 +716,13 @@ class Interp:
         if s.orelse:
             raise Untranslatable("for/else on a loop of symbolic length")
         arr = it.arr if isinstance(it, SymEnum) else it
-        n = term_of(raw(arr.shape[0]), "int")
+        n = term_of(raw(arr.n if isinstance(arr, (SymList, SymRange)) else arr.shape[0]), "int")
         ctx = self.ctx
 
         def bind(k):
+            if isinstance(arr, (SymList, SymRange)):
+                self.assign(s.target, arr.elem(k), env)
+                return
             row = self.np.getitem(arr, Sym(k, "int")) if arr.ndim > 1 else arr.get((Sym(k, "int"),))
             item = (mk(k + it.start, "int"), row) if isinstance(it, SymEnum) else row
             self.assign(s.target, item, env)
@@ -747,8 +759,14 @@ class Interp:
             if kind == "array":
                 if not isinstance(cur, TArr):
                     raise Untranslatable(f"havoc of {name}: not an array of symbolic extent")
-                sort = cur.term.sort()
-                env.vars[name] = TArr(z3.Const(ctx.fresh_name("havoc_" + name), sort), cur.shape, cur.dtype)
+                sort = cur._term.sort()
+                nanm = z3.Const(ctx.fresh_name("havoc_nan_" + name), cur.nan.sort()) if cur.nan is not None else None
+                # the body writes INTO the array (element stores): the object itself is havocked, so that every alias of it
+                # (the caller's variable the array was passed in from) sees the havoc, exactly as it sees the real writes
+                cur._term = z3.Const(ctx.fresh_name("havoc_" + name), sort)
+                cur.nan = nanm
+                cur.slice_of = None
+                cur.gather_of = None
             elif kind in ("int", "float", "bool"):
                 zs = {"int": z3.Int, "float": z3.Real, "bool": z3.Bool}[kind]
                 env.vars[name] = Sym(zs(ctx.fresh_name("havoc_" + name)), kind, spec.get("np", {}).get(name, True))
@@ -1777,7 +1795,27 @@ class Interp:
             return None if x is None else self.concrete_int(x, "slice bound")
         return slice(c(s.start), c(s.stop), c(s.step))
 
+    def sym_comp(self, e, env):
+        """comprehension / generator expression with ONE generator, no conditions, over a sequence of symbolic length:
+        (n, elem) with elem(k) = the element expression evaluated with the target bound to the k-th item; None otherwise"""
+        if len(e.generators) != 1 or e.generators[0].ifs or e.generators[0].is_async:
+            return None
+        g = e.generators[0]
+        src = self.eval(g.iter, env)
+        if not isinstance(src, (SymRange, SymList)):
+            return None if not isinstance(src, SymGen) else (_ for _ in ()).throw(Untranslatable("comprehension over a symbolic-length generator"))
+
+        def elem(k, src=src, g=g, e=e, env=env):
+            cenv = Env(env.globs, parent=env, fn=env.fn)
+            cenv.selfobj = env.selfobj
+            self.assign(g.target, src.elem(k), cenv)
+            return self.eval(e.elt, cenv)
+        return src, elem
+
     def e_ListComp(self, e, env):
+        sc = self.sym_comp(e, env) if any(isinstance(g.iter, (ast.Call, ast.Name, ast.Attribute)) for g in e.generators) else None
+        if sc is not None:
+            return SymList(sc[0].n, sc[1])
         out = []
         self.comp(e.generators, 0, Env(env.globs, parent=env, fn=env.fn), lambda en: out.append(self.eval(e.elt, en)))
         return out
@@ -1798,6 +1836,9 @@ class Interp:
         return out
 
     def e_GeneratorExp(self, e, env):
+        sc = self.sym_comp(e, env) if any(isinstance(g.iter, (ast.Call, ast.Name, ast.Attribute)) for g in e.generators) else None
+        if sc is not None:
+            return SymGen(sc[0].n, sc[1])
         out = []
         cenv = Env(env.globs, parent=env, fn=env.fn)
         cenv.selfobj = env.selfobj
@@ -1890,8 +1931,8 @@ class Interp:
             return v.take()
         if isinstance(v, Arr):
             return self.np.iterate(v)
-        if isinstance(v, TArr):
-            raise Untranslatable("iteration over an array of symbolic extent (needs a loop invariant)")
+        if isinstance(v, (TArr, SymRange, SymList, SymGen)):
+            raise Untranslatable("iteration over a sequence of symbolic extent (needs a loop invariant)")
         if isinstance(v, Obj):
             f, _ = obj_cls(v).lookup("__iter__")
             if f is not None:
